@@ -112,7 +112,9 @@ def run(c):
         data = np.array(c['data8'], dtype=float) / 8
         if c['intdtype']:
             data = (np.array(c['data8']) // 8).astype(int)
-        ev = np.array([f'ev{e}' for e in c['events']]) if c['evtype'] == 'str' else np.array(c['events'])
+        # numeric event codes whose order as numbers differs from their order as strings (5 < 10 < 20 < 100): seeded change C19-m8
+        codes = [5, 10, 20, 100, 1000]
+        ev = np.array([f'ev{e}' for e in c['events']]) if c['evtype'] == 'str' else np.array([codes[e] for e in c['events']])
         before = data.copy()
         rdm = sl.get_searchlight_RDMs(data, centers, neighbors, ev, method=c['method'], verbose=False)
         if not np.array_equal(before, data):
